@@ -198,7 +198,7 @@ def classify(F, fn, input_term=None, domain=None, target=0, expand=True):
                     if v == dt[1]:
                         tg = tgt
                 state[tg] = union(state.get(tg, ()), cur)
-            if not handled and dt[0] in ("ite", "un", "not", "discr"):
+            if not handled and (dt[0] in ("ite", "un", "not", "discr") or (dt[0] in ("bin", "cmp") and dt[1] in G.CMPS)):
                 # a boolean combination of tests of the input (`lo <= x && x <= hi`, RangeInclusive::contains): the set where it holds
                 tr = _sat(dt, input_term, full)
                 if tr is not None:
@@ -315,6 +315,12 @@ def _sat(dt, input_term, full):
         x, y, op = G.strip(dt[2]), G.strip(dt[3]), dt[1]
         if y == input_term and x[0] == "c":
             x, y, op = y, x, G.SWAP[op]
+        if x[0] == "discr" and y[0] == "c" and y[1] in (0, 1) and op in ("Eq", "Ne"):
+            # `opt.is_some()` on an Option whose discriminant is itself decidable (a table lookup)
+            d_ = _sat(x, input_term, full)
+            if d_ is None:
+                return None
+            return d_ if (op == "Eq") == (y[1] == 1) else minus(full, d_)
         if x == input_term and y[0] == "c":
             k = y[1]
             sat = {"Eq": ((k, k),) if 0 <= k <= INF else (), "Ne": minus(full, ((k, k),)), "Lt": ((0, k - 1),) if k > 0 else (), "Le": ((0, min(k, INF)),) if k >= 0 else (),
@@ -326,6 +332,8 @@ def _sat(dt, input_term, full):
         if c_ is None or a_ is None or b_ is None:
             return None
         return union(inter(c_, a_), inter(minus(full, c_), b_))
+    if dt[0] == "discr" and dt[1][0] == "optderef":
+        return _sat(("discr", dt[1][1]), input_term, full)        # Option<&T>::copied keeps the variant
     if dt[0] == "discr" and dt[1][0] == "call" and G.cn(dt[1][1]) == "core::slice::get" and "::get::<usize>" in str(dt[1][1]) and len(dt[1][2]) == 2:
         # TABLE.get(input) is Some (discriminant 1) exactly when input < TABLE.len()   (std contract; constant table)
         try:
